@@ -172,6 +172,12 @@ func (m *M) Violation(sig, detail string, replay interface{}) {
 	if len(detail) > 1500 {
 		detail = detail[:1500] + "…"
 	}
+	// snapshot the replay data now: the caller may go on mutating its map
+	if replay != nil {
+		if b, err := json.Marshal(replay); err == nil {
+			replay = json.RawMessage(b)
+		}
+	}
 	m.viol[sig] = &Violation{Sig: sig, Detail: detail, Replay: replay, Count: 1}
 	m.violOrder = append(m.violOrder, sig)
 }
